@@ -13,13 +13,13 @@ INFO = {
         "scheduler/base.py:Scheduler.aio_start (dependencyLock section, LockError abort)", "scheduler/base.py:Job.dependencychanged",
     ],
     "bounds": {
-        "quick": {"jobs": "<=3", "in_process_token": "total and requests symbolic (unbounded ints)", "file_token": "one scheduler instance, totals/requests enumerated 1<=r<=total<=3 (they are written to files)", "schedule_choice_points": 6},
+        "quick": {"two_processes": "two schedulers (own experiment, loop and CounterToken instance) on one token directory, one job each, counts enumerated (total 3 requests 2+2; total 1 requests 1+1), watcher notifications of the other process's changes delivered at symbolic times", "jobs": "<=3", "in_process_token": "total and requests symbolic (unbounded ints)", "file_token": "one scheduler instance, totals/requests enumerated 1<=r<=total<=3 (they are written to files)", "schedule_choice_points": 6},
         "thorough": {"jobs": "<=4", "file_token": "total<=3, one scheduler instance", "schedule_choice_points": 10},
     },
     "stubs": schedlib.STUBS + ["ipc.ipcom().fswatch -> recorded (no watcher event is delivered in the single-instance model: the instance's own releases update its state synchronously)", "threading.Thread in tokens (TokenFile.watch) -> external event"],
     "symbolic_data": True,
     "assumptions": ["1 <= request <= total", "exit codes symbolic", "file token: counts concrete per shard because a symbolic value cannot cross a file write"],
-    "outside": schedlib.OUTSIDE + ["several scheduler processes sharing one token directory (stale in-memory availability, watchdog events): not modelled in this round - the claim is restricted to one scheduler instance per token"],
+    "outside": schedlib.OUTSIDE + ["more than two scheduler processes; races between the watchdog thread and the loop thread at statement level; real inotify coalescing; a token file observed half-written"],
 }
 
 
@@ -108,7 +108,7 @@ def conditions(tier):
         conds.append({"name": f"file/indep2-t{total}r{''.join(map(str, reqs))}", "func": "capacity", "shard": {"shape": "indep2", "K": K, "token": [1, 1], "token_kind": "file", "total": total, "reqs": reqs}, "timeout": tmo})
     if tier == "thorough":
         conds.append({"name": "file/indep3-t2r111", "func": "capacity", "shard": {"shape": "indep3", "K": K, "token": [1, 1, 1], "token_kind": "file", "total": 2, "reqs": [1, 1, 1]}, "timeout": tmo})
-    for total, reqs in ((1, [1, 1]), (2, [1, 2]), (3, [2, 2])) if tier == "quick" else _filecombos(2, 3):
+    for total, reqs in ((3, [2, 2]), (1, [1, 1])) if tier == "quick" else _filecombos(2, 3):
         c = {"name": f"multi/t{total}r{''.join(map(str, reqs))}", "func": "multi", "shard": {"total": total, "reqs": reqs, "K": 4 if tier == "quick" else 7, "multi": 1}, "timeout": tmo}
         conds.extend(schedlib.with_prefixes(c, 2))
     conds.append({"name": "file/indep2-t3r21", "func": "capacity", "shard": {"shape": "indep2", "K": K, "token": [1, 1], "token_kind": "file", "total": 3, "reqs": [2, 1]}, "timeout": tmo})
